@@ -77,3 +77,66 @@ theorem fluxdown_closed (e : Env K) (hf : ∀ i, e.fluxup3_n i = (e.rho + e.pres
   revert b; cases3 <;> (simp only [h01, h02, h12]; ring)
 
 end AurelVerif.C09
+
+namespace AurelVerif.C09
+open AurelVerif.Gen.Core AurelVerif.Tensor AurelVerif.CoreTac AurelVerif.C08
+
+variable {K : Type} [Field K]
+
+/-- generic: if `G·M = 1` (entry-wise), `G` symmetric, then `G^{ab} (M u)_a (M u)_b = u^a (M u)_a`. -/
+theorem quad_form_inverse (G M : Fin 4 → Fin 4 → K) (u : Fin 4 → K)
+    (hGM : ∀ i k, ∑ j, G i j * M j k = delta i k) (hGs : ∀ i j, G i j = G j i) :
+    ∑ a, ∑ b, G a b * (∑ c, M a c * u c) * (∑ d, M b d * u d) = ∑ a, u a * ∑ c, M a c * u c := by
+  have key : ∀ b, ∑ a, G a b * (∑ c, M a c * u c) = u b := by
+    intro b
+    have : ∑ a, G a b * (∑ c, M a c * u c) = ∑ c, (∑ a, G b a * M a c) * u c := by
+      simp only [Finset.mul_sum, Finset.sum_mul]
+      rw [Finset.sum_comm]
+      refine Finset.sum_congr rfl fun c _ => Finset.sum_congr rfl fun a _ => ?_
+      rw [hGs a b]; ring
+    rw [this]
+    simp only [hGM, delta]
+    simp
+  calc ∑ a, ∑ b, G a b * (∑ c, M a c * u c) * (∑ d, M b d * u d)
+      = ∑ b, (∑ a, G a b * (∑ c, M a c * u c)) * (∑ d, M b d * u d) := by
+        rw [Finset.sum_comm]; simp only [Finset.sum_mul]
+    _ = ∑ b, u b * ∑ d, M b d * u d := by simp only [key]
+
+/-- the trace of the inverse against the metric is the dimension. -/
+theorem trace_inverse (G M : Fin 4 → Fin 4 → K) (hGM : ∀ i k, ∑ j, G i j * M j k = delta i k)
+    (hMs : ∀ i j, M i j = M j i) : ∑ a, ∑ b, G a b * M a b = 4 := by
+  have : ∀ a, ∑ b, G a b * M a b = 1 := by
+    intro a
+    have h := hGM a a
+    simp only [delta, if_true] at h
+    rw [← h]
+    exact Finset.sum_congr rfl fun b _ => by rw [hMs a b]
+  simp only [this]
+  simp
+
+/-- **`g^{μν} T_μν = −ρ + 3p`** for the perfect-fluid tensor built by the code. -/
+theorem Ttrace_closed (e : Env K) (h : Assembled e) (hv : Velocity e) (ha : e.alpha ≠ 0) (hW : LorentzOK e)
+    (hh : e.hdown4 = hdown4 e) (hT : e.Tdown4 = Tdown4 e)
+    (hGM : ∀ i k, ∑ j, e.gup4 i j * e.gdown4 j k = delta i k) (hGs : ∀ i j, e.gup4 i j = e.gup4 j i) :
+    Ttrace__Tdown4 e = -e.rho + 3 * e.press := by
+  have hs4 : ∀ i j, e.gdown4 i j = e.gdown4 j i := by rw [h.hg4]; exact gdown4_symm e h.hsym
+  have hud : ∀ a, e.udown4 a = ∑ c, e.gdown4 a c * e.uup4 c := by
+    intro a; rw [hv.hud]; exact udown4_spec e a
+  have hQ : ∑ a, ∑ b, e.gup4 a b * e.udown4 a * e.udown4 b = -1 := by
+    have q := quad_form_inverse e.gup4 e.gdown4 e.uup4 hGM hGs
+    have uu := u_unit_down e h hv ha hW
+    simp only [← hud] at q
+    rw [q]
+    rw [← uu]
+    exact Finset.sum_congr rfl fun a _ => by ring
+  have hTr := trace_inverse e.gup4 e.gdown4 hGM hs4
+  rw [(Ttrace_alternatives e).1, hT]
+  simp only [Tdown4_spec, hh, hdown4_spec]
+  have split : ∑ a, ∑ b, e.gup4 a b * (e.rho * (e.udown4 a * e.udown4 b) + e.press * (e.gdown4 a b + e.udown4 a * e.udown4 b))
+      = (e.rho + e.press) * (∑ a, ∑ b, e.gup4 a b * e.udown4 a * e.udown4 b)
+        + e.press * (∑ a, ∑ b, e.gup4 a b * e.gdown4 a b) := by
+    simp only [Finset.mul_sum, ← Finset.sum_add_distrib]
+    exact Finset.sum_congr rfl fun a _ => Finset.sum_congr rfl fun b _ => by ring
+  rw [split, hQ, hTr]; ring
+
+end AurelVerif.C09
